@@ -75,8 +75,11 @@ CSendBecomeLeader(n, t, rf, fm) ==
     /\ sentMax' = IF t > sentMax THEN t ELSE sentMax
     /\ UNCHANGED <<stored, alive>>
 
+\* a failed (or unanswered) BecomeLeader may have taken effect on the node: the election of this term is
+\* over (bl stays set, no second BecomeLeader in the same term - C05: at most one leader per term); the
+\* controller starts again with the next term
 CRecvBecomeLeader(ok) ==
-    /\ el' = IF el.on /\ el.bl THEN [el EXCEPT !.blok = ok, !.bl = ok] ELSE el
+    /\ el' = IF el.on /\ el.bl THEN [el EXCEPT !.blok = ok] ELSE el
     /\ UNCHANGED <<stored, sentMax, alive>>
 
 \* removed nodes are deleted only after the new leader is in place, with the current term
